@@ -203,10 +203,14 @@ impl Storage {
                 StoreInfoType::Content => {
                     if !info.miss {
                         if let Some(data) = &info.data {
-                            storage
-                                .write(info.index, data)
-                                .await
-                                .map_err(map_random_access_err)?;
+                            // An empty write stores nothing, but backends disagree on whether
+                            // it extends the store when it lies beyond the end.
+                            if !data.is_empty() {
+                                storage
+                                    .write(info.index, data)
+                                    .await
+                                    .map_err(map_random_access_err)?;
+                            }
                         }
                     } else {
                         match storage
